@@ -197,15 +197,26 @@ pub(crate) enum Expr {
 }
 
 impl Expr {
-    /// The variable at the root of an assignable expression: `a` in `a`, `a[0]`, `a.b.c`, `(a)[1].d`.
-    /// Returns `None` if the expression is not rooted at a named variable (`self`, a call, a literal...).
-    fn assignment_root(&self) -> Option<&Ident> {
+    /// The variables at the root of an assignable expression: `a` in `a`, `a[0]`, `a.b.c`, `(a)[1].d`,
+    /// `(get a)[0]`; `a` and `b` in `((a) or b)[0]`, which writes through whichever value is taken.
+    /// Empty if the expression is not rooted at a named variable (`self`, a call, a literal...).
+    fn assignment_roots(&self) -> Vec<&Ident> {
         match self {
-            Expr::Value(Value::Ident(ident)) => Some(ident),
-            Expr::Value(Value::MathExpr(inner)) => inner.assignment_root(),
-            Expr::Index { lhs_raw, .. } => lhs_raw.assignment_root(),
-            Expr::DotLookup { lhs, .. } => lhs.assignment_root(),
-            _ => None,
+            Expr::Value(Value::Ident(ident)) => vec![ident],
+            Expr::Value(Value::MathExpr(inner)) => inner.assignment_roots(),
+            Expr::Index { lhs_raw, .. } => lhs_raw.assignment_roots(),
+            Expr::DotLookup { lhs, .. } => lhs.assignment_roots(),
+            Expr::UnaryUnwrap { value, .. } => value.assignment_roots(),
+            Expr::NilEval { primary, fallback } => {
+                let mut roots = primary.assignment_roots();
+                match fallback {
+                    Value::Ident(ident) => roots.push(ident),
+                    Value::MathExpr(inner) => roots.append(&mut inner.assignment_roots()),
+                    _ => (),
+                }
+                roots
+            }
+            _ => vec![],
         }
     }
 
@@ -248,13 +259,11 @@ impl Expr {
                         }
                         Expr::Index { .. } | Expr::DotLookup { .. } => {
                             // same rule as `a[i] = v` / `a.b = v`: nothing can be written through a const root
-                            if let Some(root) = lhs.assignment_root() {
-                                if root.is_const() {
-                                    bail!(
-                                        "cannot reassign using {op} through {}, which is const",
-                                        root.name()
-                                    )
-                                }
+                            if let Some(root) = lhs.assignment_roots().into_iter().find(|root| root.is_const()) {
+                                bail!(
+                                    "cannot reassign using {op} through {}, which is const",
+                                    root.name()
+                                )
                             }
 
                             // a `str` has no element that could be updated in place
